@@ -14,7 +14,7 @@ func init() {
 }
 
 type verifRow struct {
-	kind int // 0 empty row, 1 tag only, 2 tag + a=x, 3 tag + a=y
+	kind int // 0 empty row, 1 tag only, 2 tag + a=x, 3 tag + a=y, 4 tag + a="" (empty value)
 }
 
 func (r verifRow) values(i int) map[string]string {
@@ -27,6 +27,8 @@ func (r verifRow) values(i int) map[string]string {
 		m["a"] = "x"
 	case 3:
 		m["a"] = "y"
+	case 4:
+		m["a"] = ""
 	}
 	return m
 }
@@ -62,8 +64,11 @@ func verifCheckIndex(idx *Index, rows []verifRow, tag string) {
 	n := len(rows)
 	// expected schema
 	hasA, hasT := false, false
-	hasX, hasY := false, false
+	hasX, hasY, hasE := false, false, false
 	for _, r := range rows {
+		if r.kind == 4 {
+			hasE = true
+		}
 		if r.kind >= 1 {
 			hasT = true
 		}
@@ -80,6 +85,9 @@ func verifCheckIndex(idx *Index, rows []verifRow, tag string) {
 	var want []SchemaColumn
 	if hasA {
 		c := SchemaColumn{Name: "a"}
+		if hasE {
+			c.Values = append(c.Values, SchemaColumnValue{Value: ""})
+		}
 		if hasX {
 			c.Values = append(c.Values, SchemaColumnValue{Value: "x"})
 		}
@@ -122,7 +130,7 @@ func verifCheckIndex(idx *Index, rows []verifRow, tag string) {
 		return res.Count, true
 	}
 	// per (a,v): exact row membership through the unique tag of every row
-	for vi, v := range []string{"x", "y"} {
+	for vi, v := range []string{"x", "y", ""} {
 		c, ok := count(&ExprEqual{Column: "a", Value: v})
 		if !hasA {
 			verifAssert(!ok, tag+": query on a column that occurs in no row must fail")
@@ -172,7 +180,7 @@ func HarnessC05Writers() {
 	}
 	var rows []verifRow
 	for i := 0; i < n; i++ {
-		rows = append(rows, verifRow{kind: verifChoice("rowkind", 4)})
+		rows = append(rows, verifRow{kind: verifChoice("rowkind", 5)})
 	}
 	which := verifChoice("writer", 3)
 	out := verifTempPath("c05.updog")
